@@ -192,9 +192,8 @@ func TensorFromProto(tp *TensorProto) (tensor.Tensor, error) {
 		values, err = getDoubleData(tp)
 	case typeMap["BOOL"]:
 		values = getBoolData(tp)
-	default:
-		// At this moment the datatype is either UNDEFINED or some datatype we currently
-		// do not support.
+	case typeMap["UNDEFINED"]:
+		// When the datatype is not defined, we try to derive it from the data that is present.
 		switch {
 		case len(tp.FloatData) > 0:
 			values, err = getFloatData(tp)
@@ -209,6 +208,10 @@ func TensorFromProto(tp *TensorProto) (tensor.Tensor, error) {
 		default:
 			return nil, ErrInvalidType
 		}
+	default:
+		// Some datatype we currently do not support. Its data can not be interpreted as
+		// if it were of another type.
+		return nil, ErrInvalidType
 	}
 
 	if err != nil {
